@@ -214,6 +214,16 @@ prop("C04", "Skip-marked code and opted-out files are emitted verbatim", "other"
      "Decision tables proved / enumerated; the per-node verbatim copying inside the rewriters is not decided.",
      statement_clauses={"U17": "A file that opts out as a whole (inner skip attribute, disable_all_formatting, an ignore match, or an @generated marker when generated files are excluded) is neither changed nor reported as differing", "U24": "appear in the output with their original bytes"})
 
+prop("C03", "Comments are never silently dropped", "other",
+     ["U10", "U11"],
+     [{"clause": "comment/code segmentation agrees with the Rust lexer: CharClasses yields every char once in order; the bytes classified as comment are exactly rustc_lexer's comment tokens (plus the newline ending a line comment); string bytes lie inside string tokens", "status": "bounded", "by": "U10 (all strings <= 6/7 over 10 characters that rustc lexes, + three deeper sub-domains) — KNOWN FINDINGS: nested /* after a quote inside a block comment; r in the middle of a token"},
+      {"clause": "CommentCodeSlices / UngroupedCommentCodeSlices / LineClasses partition the text (every byte handed out once, comment bytes in comment slices)", "status": "bounded", "by": "U10"},
+      {"clause": "the safety net: changed_comment_content(s,s) is false; it is false only if the non-blank comment characters are equal; re-indentation raises no false alarm; recover_comment_removed keeps the source snippet (and reports exactly one LostComment under error_on_unformatted) whenever the comment payload differs", "status": "bounded", "by": "U11 (all pairs of lexable texts <= 5/6 over 6 characters, + block-comment bodies, + multi-comment texts) — KNOWN FINDING: //// and /*** openers"},
+      {"clause": "list machinery (extract_pre_comment / write_list), close_block, rewrite_comment word preservation under wrap_comments / normalize_comments, 'exactly once'", "status": "not_decided", "by": "- (2 kLoC of string code over Config/Shape/unicode tables)"}],
+     "Decided are the two mechanisms everything else leans on: the lexical segmentation into code and comments (against the real rustc_lexer) and the lost-comment safety net. Both are string walkers outside Verus/Kani, hence bounded-exhaustive. "
+     "The placement of comments by the list and block rewriters is not decided.",
+     statement_clauses={"U10": "Every non-doc comment of the input ... reappears in the output with the same text", "U11": "If rustfmt cannot place such a comment it leaves the enclosing statement as written rather than losing it"})
+
 PROPS["C13"]["statement_clauses"]["U17"] = "except modules or files that are skipped, matched by `ignore`, marked @generated when generated files are excluded, or any child when skip_children is set or the input is standard input"
 PROPS["C20"]["statement_clauses"]["U25"] = "When rustfmt rewrites a file with --backup ..."
 
@@ -224,6 +234,8 @@ T_B = "bounded-exhaustive contract checking of the natively compiled real functi
 MANIFEST_TEXT = {
     "C01": {"text": "Only the leaves: modifier keyword tables proved complete with Kani (and re-checked on the real rustc_ast enums), extern ABI / visibility / literal re-spelling / macro metavariable substitution checked bounded-exhaustively against rustc_lexer. Token preservation by the rewriters (the bulk of C01) is NOT decided.",
             "note": "shim enums mirror rustc_ast variants (a missing variant would not compile); RewriteContext/Shape shims for the literal functions; one recorded known finding (placeholder collisions)", "technique": T_K + " + " + T_B},
+    "C03": {"text": "Bounded-exhaustive contract checks of the comment/code segmentation (CharClasses, *CodeSlices, LineClasses) against the real rustc_lexer and of the lost-comment safety net (changed_comment_content, CommentReducer, recover_comment_removed). Comment placement by the list/block rewriters and comment re-wrapping are NOT decided.",
+            "note": "rustc_lexer is the reference; RewriteContext/ParseSess shims for recover_comment_removed; three recorded known findings", "technique": T_B},
     "C04": {"text": "Opt-out decision table proved (Kani, complete) and exercised end-to-end through the real format_project on recording shims; @generated search limit, skip-name scoping and the recorded skipped-line range enumerated. Per-node verbatim copying in the rewriters is NOT decided.",
             "note": "Parser / ModResolver / emitter are recording shims; contains_skip is a harness-chosen bit; one recorded known finding (stdin + @generated, pinned by an existing test)", "technique": T_K + " + " + T_B},
     "C05": {"text": "Exit-status and error-folding clauses proved (Kani, complete) on the extracted statements of bin/main.rs and Session; 'a file is only replaced by its complete formatted text, only if it differs' enumerated on the real FilesEmitter against a recording FS model. That every input fault is detected before the first write is NOT decided.",
